@@ -99,15 +99,26 @@ var gluelayerStdoutMu sync.Mutex
 
 // gluelayerPublish runs one `apko publish` with SBOMs against a fresh registry.
 func gluelayerPublish(ic types.ImageConfiguration, repo *SRepo, archs []string) gluelayerPublished {
+	return gluelayerPublishAt(ic, repo, "", archs)
+}
+
+// gluelayerPublishAt: like gluelayerPublish, but a repository already materialised at repoDir is used as is (a lock
+// file names its packages by their location) and further build options (the lock file) are passed on.
+func gluelayerPublishAt(ic types.ImageConfiguration, repo *SRepo, repoDir string, archs []string, extra ...build.Option) gluelayerPublished {
 	work, err := os.MkdirTemp("", "verif-publish-")
 	if err != nil {
 		return gluelayerPublished{Err: err}
 	}
 	defer os.RemoveAll(work)
-	rd := filepath.Join(work, "repo")
-	kp := repo.WriteTo(rd)
-	ic.Contents.RuntimeRepositories = []string{rd}
-	ic.Contents.Keyring = []string{kp}
+	if repoDir != "" {
+		ic.Contents.RuntimeRepositories = []string{repoDir}
+		ic.Contents.Keyring = []string{filepath.Join(repoDir, synthKeyName)}
+	} else {
+		rd := filepath.Join(work, "repo")
+		kp := repo.WriteTo(rd)
+		ic.Contents.RuntimeRepositories = []string{rd}
+		ic.Contents.Keyring = []string{kp}
+	}
 	var as []types.Architecture
 	for _, a := range archs {
 		as = append(as, types.ParseArchitecture(a))
@@ -118,6 +129,7 @@ func gluelayerPublish(ic types.ImageConfiguration, repo *SRepo, archs []string) 
 	dst := gluelayerRegHost + "/" + gluelayerRegRepo + ":latest"
 	opts := []build.Option{build.WithImageConfiguration(ic), build.WithBuildDate(""), build.WithTempDir(filepath.Join(work, "tmp")),
 		build.WithSBOMFormats([]string{"spdx"}), build.WithTags(dst)}
+	opts = append(opts, extra...)
 	reg := gluelayerNewRegistry()
 	// the command prints the digest of what it published
 	gluelayerStdoutMu.Lock()
